@@ -99,18 +99,18 @@ func (s *recState) GetBalance(a ethcmn.Address) *big.Int {
 	s.note(a)
 	return s.r.DB.GetBalance(a)
 }
-func (s *recState) GetNonce(a ethcmn.Address) uint64     { s.note(a); return s.r.DB.GetNonce(a) }
-func (s *recState) SetNonce(a ethcmn.Address, n uint64)  { s.note(a); s.r.DB.SetNonce(a, n) }
+func (s *recState) GetNonce(a ethcmn.Address) uint64    { s.note(a); return s.r.DB.GetNonce(a) }
+func (s *recState) SetNonce(a ethcmn.Address, n uint64) { s.note(a); s.r.DB.SetNonce(a, n) }
 func (s *recState) GetCodeHash(a ethcmn.Address) ethcmn.Hash {
 	s.note(a)
 	return s.r.DB.GetCodeHash(a)
 }
-func (s *recState) GetCode(a ethcmn.Address) []byte      { s.note(a); return s.r.DB.GetCode(a) }
-func (s *recState) SetCode(a ethcmn.Address, c []byte)   { s.note(a); s.r.DB.SetCode(a, c) }
-func (s *recState) GetCodeSize(a ethcmn.Address) int     { s.note(a); return s.r.DB.GetCodeSize(a) }
-func (s *recState) AddRefund(g uint64)                   { s.r.DB.AddRefund(g) }
-func (s *recState) SubRefund(g uint64)                   { s.r.DB.SubRefund(g) }
-func (s *recState) GetRefund() uint64                    { return s.r.DB.GetRefund() }
+func (s *recState) GetCode(a ethcmn.Address) []byte    { s.note(a); return s.r.DB.GetCode(a) }
+func (s *recState) SetCode(a ethcmn.Address, c []byte) { s.note(a); s.r.DB.SetCode(a, c) }
+func (s *recState) GetCodeSize(a ethcmn.Address) int   { s.note(a); return s.r.DB.GetCodeSize(a) }
+func (s *recState) AddRefund(g uint64)                 { s.r.DB.AddRefund(g) }
+func (s *recState) SubRefund(g uint64)                 { s.r.DB.SubRefund(g) }
+func (s *recState) GetRefund() uint64                  { return s.r.DB.GetRefund() }
 func (s *recState) GetCommittedState(a ethcmn.Address, k ethcmn.Hash) ethcmn.Hash {
 	s.noteSlot(a, k)
 	return s.r.DB.GetCommittedState(a, k)
@@ -145,9 +145,9 @@ func (s *recState) AddAddressToAccessList(a ethcmn.Address) { s.r.DB.AddAddressT
 func (s *recState) AddSlotToAccessList(a ethcmn.Address, k ethcmn.Hash) {
 	s.r.DB.AddSlotToAccessList(a, k)
 }
-func (s *recState) RevertToSnapshot(i int)          { s.r.DB.RevertToSnapshot(i) }
-func (s *recState) Snapshot() int                   { return s.r.DB.Snapshot() }
-func (s *recState) AddLog(l *ethtypes.Log)          { s.r.DB.AddLog(l) }
+func (s *recState) RevertToSnapshot(i int)              { s.r.DB.RevertToSnapshot(i) }
+func (s *recState) Snapshot() int                       { return s.r.DB.Snapshot() }
+func (s *recState) AddLog(l *ethtypes.Log)              { s.r.DB.AddLog(l) }
 func (s *recState) AddPreimage(h ethcmn.Hash, p []byte) { s.r.DB.AddPreimage(h, p) }
 func (s *recState) ForEachStorage(a ethcmn.Address, cb func(ethcmn.Hash, ethcmn.Hash) bool) error {
 	return s.r.DB.ForEachStorage(a, cb)
@@ -164,6 +164,9 @@ type covTracer struct {
 	maxDepth int
 	// addresses the code asked about through account-reading opcodes
 	probed map[ethcmn.Address]bool
+	// gas limits at which the outermost frame dies exactly at an opcode
+	txGas uint64
+	bound []uint64
 }
 
 func newCovTracer() *covTracer {
@@ -175,6 +178,9 @@ func (t *covTracer) CaptureStart(env *ethvm.EVM, from ethcmn.Address, to ethcmn.
 
 func (t *covTracer) CaptureState(env *ethvm.EVM, pc uint64, op ethvm.OpCode, gas, cost uint64, scope *ethvm.ScopeContext, rData []byte, depth int, err error) {
 	t.ops++
+	if depth == 1 && t.txGas >= gas && len(t.bound) < 4096 {
+		t.bound = append(t.bound, t.txGas-gas)
+	}
 	if depth > t.maxDepth {
 		t.maxDepth = depth
 	}
